@@ -25,7 +25,12 @@ def wmax_provider(prog: Program, rep, RID: str, classes: List[str]):
             raise AnalysisError(f"{cname}.__init__: w_max definition not found")
         first = sts[0].value
         key = f"{cname}.__init__:w_max"
-        ok, why = _wmax_ok(first)
+        # locals (max_flow_value = <query>) are substituted, conditional conversions are judged case by case
+        from rules.common import local_single_defs, substitute_locals, expr_cases
+        first_sub = substitute_locals(first, local_single_defs(f.node))
+        verdicts = [_wmax_ok(x, inexact=cname in INEXACT_MODELS) for _, x in expr_cases(first_sub)]
+        bad = [v for v in verdicts if not v[0]]
+        ok, why = (False, bad[0][1]) if bad else (True, " / ".join(sorted({v[1] for v in verdicts})))
         for later in sts[1:]:
             v = later.value
             if not (isinstance(v, ast.Call) and dotted(v.func) == "max" and any(norm(a) == "self.w_max" for a in v.args)):
@@ -37,7 +42,11 @@ def wmax_provider(prog: Program, rep, RID: str, classes: List[str]):
                           "otherwise the optimum (or feasibility) is cut off", f.loc(sts[0]))
 
 
-def _wmax_ok(e: ast.AST) -> (bool, str):
+# models whose flow values need not be integers even for integer weights (errors / slacks absorb the difference)
+INEXACT_MODELS = {"kLeastAbsErrors", "kLeastAbsErrorsCycles", "kMinPathError", "kMinPathErrorCycles"}
+
+
+def _wmax_ok(e: ast.AST, inexact: bool = False) -> (bool, str):
     p = to_poly(e)
     hits = [(m, c) for m, c in p.t.items() if any(MAXFLOW in a for a in m)]
     if len(hits) != 1 or len(p.t) != 1:
@@ -46,7 +55,11 @@ def _wmax_ok(e: ast.AST) -> (bool, str):
     atom = [a for a in m if MAXFLOW in a][0]
     if "edges_to_ignore=self.edges_to_ignore" not in atom.replace(" ", "").replace("edges_to_ignore=self.edges_to_ignore", "edges_to_ignore=self.edges_to_ignore"):
         return False, "max-flow query does not exclude the ignore set"
-    if not re.match(r"^self\.weight_type\(", atom):
+    if re.match(r"^self\.weight_type\(", atom):
+        if inexact:
+            return False, ("the largest flow value is converted with weight_type(), i.e. int() truncates it for integer weights: a value that is an integer up to float "
+                           "noise (2.9999999999999996) becomes 2 and the optimum weight 3 is cut off, 0.9999999999999999 gives w_max = 0 (infeasible)")
+    elif not re.match(r"^(math\.ceil|ceil|float)\(", atom):
         return False, "max flow not converted to the requested weight type"
     if c < 1:
         return False, f"scaled by {c} < 1"
